@@ -16,6 +16,7 @@ package main
 import (
 	"bytes"
 	"context"
+	"encoding/json"
 	"errors"
 	"fmt"
 	"io"
@@ -24,6 +25,7 @@ import (
 	"net"
 	"net/http"
 	"os"
+	"os/exec"
 	"os/signal"
 	"path/filepath"
 	"regexp"
@@ -126,17 +128,30 @@ type Round struct {
 }
 
 type Scenario struct {
-	Proto   int `json:",omitempty"`
-	Metrics bool
-	Tracing bool
-	Listen  int
-	Starts  []int
-	Readies []int
-	NReload int
-	Shuts   []int
-	Stops   []int
-	Reqs    []Rel
-	Rounds  []Round
+	Proto int `json:",omitempty"`
+	// LateHup: a SIGHUP arrives during the shutdown sequence — 1: while the first OnShutdown hook to run is
+	// running, 2: while the first OnStop hook is running. Such a case runs in a child process of its own
+	// (no SIGHUP guard there): whether the process survives is the observation.
+	LateHup int `json:",omitempty"`
+	// MetDead: metrics go over OTLP to a collector that is gone (its shutdown fails); no Prometheus server.
+	MetDead bool `json:",omitempty"`
+	// MetricsRace: the metrics event handler is slow and nothing waits for the metrics server to come up —
+	// effective only when start-up fails right after startObservability (no OnStart hooks, listen fault).
+	MetricsRace bool `json:",omitempty"`
+	Metrics     bool
+	Tracing     bool
+	Listen      int
+	Starts      []int
+	Readies     []int
+	NReload     int
+	Shuts       []int
+	Stops       []int
+	Reqs        []Rel
+	Rounds      []Round
+}
+
+func (sc *Scenario) metricsRace() bool {
+	return sc.MetricsRace && sc.Metrics && len(sc.Starts) == 0 && sc.Listen != lOK
 }
 
 func (sc *Scenario) hasBlockShut() bool {
@@ -167,6 +182,9 @@ func (sc *Scenario) pairAt(i int) bool {
 }
 
 func (sc *Scenario) needsSerial() bool {
+	if sc.LateHup > 0 && !inChild {
+		return false // runs in a process of its own
+	}
 	for i, r := range sc.Rounds {
 		if r.Trig == 1 || sc.pairAt(i) {
 			return true
@@ -176,7 +194,7 @@ func (sc *Scenario) needsSerial() bool {
 }
 
 func (sc *Scenario) tokens(l *hx.Line) {
-	l.Tok("P").Nat(sc.Proto).Bool(sc.Metrics).Bool(sc.Tracing).Nat(sc.Listen)
+	l.Tok("P").Nat(sc.Proto).Tok("X").Nat(sc.LateHup).Bool(sc.MetDead).Bool(sc.metricsRace()).Bool(sc.Metrics).Bool(sc.Tracing).Nat(sc.Listen)
 	ints := func(xs []int) {
 		l.Nat(len(xs))
 		for _, x := range xs {
@@ -867,6 +885,16 @@ func (r *runner) callReload(round int) (res int) {
 	return 0
 }
 
+// lateHup: a SIGHUP arrives now (child process only: nothing but the application decides what SIGHUP does
+// to this process). If the process is going to die of it, it does so within the short wait.
+func (r *runner) lateHup() {
+	if !inChild {
+		return
+	}
+	_ = syscall.Kill(os.Getpid(), syscall.SIGHUP)
+	time.Sleep(60 * time.Millisecond)
+}
+
 // start calls the entry point of the scenario.
 func (r *runner) start() error {
 	switch r.sc.Proto {
@@ -936,8 +964,16 @@ func (r *runner) build() error {
 	// the logger writes to a buffer of the harness: app.New puts it into startup-buffering mode, and
 	// whether what is logged during start-up ever comes out is part of the observation
 	obs := []app.ObservabilityOption{app.WithLogging(logging.WithJSONHandler(), logging.WithOutput(&r.logBuf))}
-	if sc.Metrics {
-		obs = append(obs, app.WithMetrics(metrics.WithPrometheus(fmt.Sprintf(":%d", r.metPort), "/metrics"), metrics.WithStrictPort()))
+	switch {
+	case sc.Metrics:
+		mo := []metrics.Option{metrics.WithPrometheus(fmt.Sprintf(":%d", r.metPort), "/metrics"), metrics.WithStrictPort()}
+		if sc.metricsRace() {
+			mo = append(mo, metrics.WithEventHandler(func(metrics.Event) { time.Sleep(30 * time.Millisecond) }))
+		}
+		obs = append(obs, app.WithMetrics(mo...))
+	case sc.MetDead:
+		// nobody listens on metPort: every export fails, and so does the shutdown of the meter provider
+		obs = append(obs, app.WithMetrics(metrics.WithOTLP(fmt.Sprintf("http://127.0.0.1:%d", r.metPort))))
 	}
 	if sc.Tracing {
 		// traces go to a collector of our own: an export request arriving there *is* the flush
@@ -977,13 +1013,13 @@ func (r *runner) build() error {
 			a.BaseLogger().Info(startupMarker)
 			r.span("boot")
 			dl := time.Now().Add(5 * time.Second)
-			for sc.Metrics && time.Now().Before(dl) {
+			for sc.Metrics && !sc.metricsRace() && time.Now().Before(dl) {
 				if r.probeMetrics() {
 					return nil
 				}
 				time.Sleep(200 * time.Microsecond)
 			}
-			if sc.Metrics {
+			if sc.Metrics && !sc.metricsRace() {
 				r.discard = "metrics server did not come up"
 			}
 			return nil
@@ -1039,6 +1075,9 @@ func (r *runner) build() error {
 		a.OnShutdown(func(ctx context.Context) {
 			live := ctx.Err() == nil
 			r.ev(fmt.Sprintf("h %d %s %s", i, r.probes2(), b2s(live)))
+			if sc.LateHup == 1 && i == len(sc.Shuts)-1 {
+				r.lateHup()
+			}
 			for k, q := range sc.Reqs {
 				if q.Kind == "H" && q.J == i {
 					r.releaseReq(k, true)
@@ -1063,6 +1102,9 @@ func (r *runner) build() error {
 	for i, b := range sc.Stops {
 		a.OnStop(func() {
 			r.ev(fmt.Sprintf("p %d %s", i, r.probes2()))
+			if sc.LateHup == 2 && i == 0 {
+				r.lateHup()
+			}
 			r.ev(fmt.Sprintf("P %d", i))
 			if isPanic(b) {
 				panicWith(b, "stop")
@@ -1151,7 +1193,15 @@ func (r *runner) run() obsT {
 			if blocker != nil {
 				blocker.Close()
 			}
-			r.fin = [3]bool{r.probeApp(), r.probeMetrics(), !r.logBuf.contains(startupMarker)}
+			metUp := r.probeMetrics()
+			if sc.metricsRace() {
+				// absence window: a metrics server that comes up after Start has returned its error shows up here
+				for dl := time.Now().Add(400 * time.Millisecond); !metUp && time.Now().Before(dl); {
+					time.Sleep(5 * time.Millisecond)
+					metUp = r.probeMetrics()
+				}
+			}
+			r.fin = [3]bool{r.probeApp(), metUp, !r.logBuf.contains(startupMarker)}
 			if sc.Tracing && time.Since(r.t0) > 4500*time.Millisecond {
 				r.discard = "case took longer than the tracer's periodic export interval"
 			}
@@ -1460,6 +1510,15 @@ func emit(id string, sc *Scenario, o obsT, st *hx.Stats) string {
 			st.Count("listen_fault")
 		}
 		st.Count([]string{"entry_Start", "entry_StartTLS", "entry_StartMTLS"}[sc.Proto%3])
+		if sc.LateHup > 0 {
+			st.Count(fmt.Sprintf("sighup_during_shutdown_%d", sc.LateHup))
+		}
+		if sc.MetDead && !sc.Metrics {
+			st.Count("metrics_otlp_dead_collector")
+		}
+		if sc.metricsRace() {
+			st.Count("metrics_race")
+		}
 		if len(sc.Reqs) > 0 {
 			st.Count("inflight")
 		}
@@ -1547,7 +1606,49 @@ func firstWords(s string, n int) string {
 	return strings.Join(f, " ")
 }
 
+// inChild: this process runs one scenario for its parent (sub-command `child`), without the SIGHUP guard.
+var inChild bool
+
+type childJob struct {
+	ID string
+	Sc *Scenario
+}
+
+// runInChild runs the scenario in a process of its own and returns what it observed; a child killed by a
+// signal is the observation RES 7.
+func runInChild(id string, sc *Scenario) obsT {
+	in, _ := json.Marshal(childJob{id, sc})
+	ctx, cancel := context.WithTimeout(context.Background(), 60*time.Second)
+	defer cancel()
+	cmd := exec.CommandContext(ctx, os.Args[0], "child")
+	cmd.Stdin = bytes.NewReader(in)
+	var out bytes.Buffer
+	cmd.Stdout = &out
+	err := cmd.Run()
+	var o obsT
+	if err == nil && json.Unmarshal(out.Bytes(), &o) == nil {
+		return o
+	}
+	var ee *exec.ExitError
+	if errors.As(err, &ee) {
+		if ws, ok := ee.Sys().(syscall.WaitStatus); ok && ws.Signaled() && ctx.Err() == nil {
+			o = obsT{Res: 7, Err: "the process was killed by " + ws.Signal().String()}
+			for range sc.Reqs {
+				o.Reqs = append(o.Reqs, 2)
+			}
+			for range sc.Rounds {
+				o.Rounds = append(o.Rounds, 2)
+			}
+			return o
+		}
+	}
+	return obsT{Discard: fmt.Sprintf("child process: %v", err)}
+}
+
 func runScenario(id string, sc *Scenario) obsT {
+	if sc.LateHup > 0 && !inChild {
+		return runInChild(id, sc)
+	}
 	var o obsT
 	var retried []string
 	for attempt := 0; attempt < 3; attempt++ {
@@ -1589,6 +1690,18 @@ func main() {
 	// net/http reports the probes that hang up during a TLS handshake through the standard logger
 	log.SetOutput(io.Discard)
 	go watchStalls()
+	if a.Cmd == "child" {
+		inChild = true
+		var j childJob
+		if err := json.NewDecoder(os.Stdin).Decode(&j); err != nil || j.Sc == nil {
+			os.Exit(2)
+		}
+		o := runScenario(j.ID, j.Sc)
+		b, _ := json.Marshal(o)
+		realOut.Write(b)
+		pkiCleanup()
+		os.Exit(0)
+	}
 	// a stray SIGHUP must never kill the harness
 	guard := make(chan os.Signal, 8)
 	signal.Notify(guard, syscall.SIGHUP)
